@@ -204,6 +204,11 @@ def check_valid(ctx, formula, timeout_ms, want_model_vars=None, uf_apps=None):
         neg = z3.Not(formula)
     s.add(neg)
     r = s.check()
+    if r == z3.unknown:
+        # one retry with a different seed and twice the time before giving up (verdicts must not flip under load)
+        s.set("random_seed", 41)
+        s.set("timeout", 2 * timeout_ms)
+        r = s.check()
     dt = time.time() - t0
     if r == z3.unsat:
         return dict(verdict=PROVED, backend="z3", time=dt)
